@@ -487,9 +487,20 @@ def _clean_up_state(state: State) -> None:
             and flow_state_uid
             in state.flow_states[flow_state.parent_uid].child_flow_uids
         ):
-            state.flow_states[flow_state.parent_uid].child_flow_uids.remove(
-                flow_state_uid
-            )
+            # A flow that was activated several times is listed once per activation
+            parent_flow_state = state.flow_states[flow_state.parent_uid]
+            parent_flow_state.child_flow_uids = [
+                uid
+                for uid in parent_flow_state.child_flow_uids
+                if uid != flow_state_uid
+            ]
+        # Open scopes must not keep a reference to the removed flow
+        for other_flow_state in state.flow_states.values():
+            for scope_flow_uids, _ in other_flow_state.scopes.values():
+                if flow_state_uid in scope_flow_uids:
+                    scope_flow_uids[:] = [
+                        uid for uid in scope_flow_uids if uid != flow_state_uid
+                    ]
         flow_states = state.flow_id_states[state.flow_states[flow_state_uid].flow_id]
         flow_states.remove(flow_state)
         del state.flow_states[flow_state_uid]
